@@ -14,3 +14,4 @@ import TransportVerif.Props.C15
 import TransportVerif.Props.C08
 import TransportVerif.Props.C14
 import TransportVerif.Props.C10
+import TransportVerif.Props.C11
